@@ -180,6 +180,9 @@ class SourceFile:
                 k -= 1; start = p.a; continue
             if p.k == BCOM and p.s.startswith('/**'):
                 k -= 1; start = p.a; continue
+            if p.k in (LCOM, BCOM):
+                # a plain comment between doc-comment lines: step over it, `start` only moves at doc comments / attributes
+                k -= 1; continue
             # attributes interleaved with doc comments
             if p.k == P and p.s == ']':
                 # find in significant stream
